@@ -15,6 +15,8 @@ struct StatusOp
     uint8_t viaDecoder{0};
     uint8_t content{0};  // 0: the payload content is derived from the op's position (every update differs); 1..3: one of three fixed
                          // contents per (device, interface) - an idle interface reports the same payload again, only header fields differ
+    uint16_t burst{0};   // kinds 0 / 1 only: the update is followed by `burst` further updates for the next device ids (kind 0) /
+                         // interface ids (kind 1) - many entries alive at once (the statement has no bound on their number)
     void io(Ar& a)
     {
         a.num("kind", kind);
@@ -22,6 +24,7 @@ struct StatusOp
         a.num("iface", iface);
         a.num("viaDecoder", viaDecoder);
         a.optionalNum("content", content);
+        a.optionalNum("burst", burst);
     }
 };
 inline lib::Packet makeStatusUpdate(const StatusOp& op, size_t position)
